@@ -37,11 +37,18 @@ func invalidEnt(p enttypes.Params) string {
 		return "no-signers"
 	}
 	parts := strings.Split(p.EntSigners, ",")
+	seen := map[string]bool{}
 	for _, s := range parts {
 		a, err := sdk.AccAddressFromBech32(s)
 		if err != nil || a.Empty() || strings.TrimSpace(s) != s {
 			return "malformed-signer"
 		}
+		// signers are accounts: the same account listed twice (in whatever spelling) is one signer,
+		// and a list that counts it twice misstates both the quorum and the reject threshold
+		if seen[string(a)] {
+			return "duplicate-signer"
+		}
+		seen[string(a)] = true
 	}
 	if new(big.Int).SetUint64(p.MinAccepts).Cmp(big.NewInt(int64(len(parts)))) > 0 {
 		return "fewer-signers-than-min-accepts"
